@@ -15,3 +15,17 @@ var ioSync uint64
 // Like internal/poll: every read happens-after every earlier write.
 func ioRelease() { runtime.RaceReleaseMerge(unsafe.Pointer(&ioSync)) }
 func ioAcquire() { runtime.RaceAcquire(unsafe.Pointer(&ioSync)) }
+
+// Harness-only goroutines (raw peers and the scheduler root) share harness
+// data through runtime helpers that report to the detector (append, copy, maps).
+// They are ordered among themselves through one private address, which adds no
+// edge between goroutines that run library code.
+var hSync uint64
+
+func hsRelease() { runtime.RaceReleaseMerge(unsafe.Pointer(&hSync)) }
+func hsAcquire() { runtime.RaceAcquire(unsafe.Pointer(&hSync)) }
+
+// HBRelease / HBAcquire give the detector the happens-before edge that a real
+// implementation's own lock would create between two of its goroutines.
+func HBRelease(p unsafe.Pointer) { runtime.RaceReleaseMerge(p) }
+func HBAcquire(p unsafe.Pointer) { runtime.RaceAcquire(p) }
